@@ -126,7 +126,6 @@ func genC14(r *Rnd, t Tier) *Case {
 	return &Case{Sc: sc}
 }
 
-
 // lastRaceReport reads the newest report from this process's race log.
 func lastRaceReport() (text, sig string) {
 	path := os.Getenv("DSIM_RACE_LOG")
